@@ -176,7 +176,7 @@ fn eval_builtin_incbin(
         }
     };
 
-    if bytes.len() == 0
+    if bytes.len() == 0 && start == 0 && end == 0
     {
         return Ok(expr::Value::make_integer(util::BigInt::from_bytes_be(&[])));
     }
@@ -348,6 +348,11 @@ fn eval_builtin_incstr(
             bigint_size / bits_per_char
         }
     };
+
+    if bigint_size == 0 && start == 0 && end == 0
+    {
+        return Ok(expr::Value::make_integer(util::BigInt::from_bytes_be(&[])));
+    }
 
     if (start * bits_per_char) >= bigint_size
     {
